@@ -123,6 +123,12 @@ func ledOp(e *WEnv, a []string) string {
 		return e.StakingHistory(a[1], false, true)
 	case a[0] == "bhistp" && len(a) == 2:
 		return e.BindingHistory(a[1], false, true)
+	case a[0] == "wseq" && len(a) == 4:
+		lt, err := strconv.ParseUint(a[3], 10, 64)
+		if err != nil {
+			return "bad-op"
+		}
+		return e.WithdrawSeq(a[1], a[2], lt)
 	case a[0] == "wallets" && len(a) == 1:
 		return e.Wallets()
 	case a[0] == "restart" && len(a) == 1:
